@@ -210,6 +210,9 @@ def run(res, ctx):
                                   {"theorem_or_projection": "year_of_day"}, found_input=False)
     # the report renderer inside the model: every cell of both views against Model/Render.v
     rendermodel.check_pass(res, ctx, rs, to_cents_view)
+    # the real binary writing report files (fresh vs previously used output directory)
+    import props.c06_cli as c06_cli
+    c06_cli.run(res, ctx, rng, st)
     res.coverage.update({
         "evaluations": st["evaluations"],
         "distinct_nontrivial": st["distinct_nontrivial"],
